@@ -367,6 +367,7 @@ type c08Seq struct {
 	bad   bool
 	enc   []byte // JSON of c.Ops without the closing bracket
 	sigs  map[int]map[string]bool // per reader: the source paths its values come along
+	fwd   map[int]bool            // per reader: a forwarding goroutine (merged convert / copy child) is below it
 	inconclusive bool
 }
 
@@ -436,6 +437,9 @@ func (s *c08Seq) step(op c08Op) (bool, error) {
 		case op.K == "send" && !op.Closed:
 			s.stats["send-err="+c08ErrKind(op.E)]++
 		case op.K == "recv":
+			if s.fwd[op.R] {
+				kind += "+forwarder"
+			}
 			s.stats["recv-err="+c08ErrKind(op.E)+"@"+kind]++
 		}
 	}
@@ -487,6 +491,7 @@ func (s *c08Seq) track(op *c08Op, created []int) {
 			m[fmt.Sprintf("%s/v%d", k, op.Add)] = true
 		}
 		s.sigs[created[0]] = m
+		s.fwd[created[0]] = s.fwd[op.R]
 	case "copy":
 		for _, id := range created {
 			if id != op.R {
@@ -495,6 +500,7 @@ func (s *c08Seq) track(op *c08Op, created []int) {
 					m[k] = true
 				}
 				s.sigs[id] = m
+				s.fwd[id] = s.fwd[op.R]
 			}
 		}
 	case "merge":
@@ -505,6 +511,9 @@ func (s *c08Seq) track(op *c08Op, created []int) {
 		for _, r := range op.Rs {
 			for k := range s.sigs[r] {
 				m[k] = true
+			}
+			if k := c08KindOf(s.st, r); k == "convert" || k == "copy-child" || s.fwd[r] {
+				s.fwd[created[0]] = true
 			}
 		}
 		s.sigs[created[0]] = m
@@ -780,7 +789,7 @@ func (s *c08Seq) writerState(p int) []int {
 
 func c08NewSeq(ctx *vh.Ctx, mode string) *c08Seq {
 	return &c08Seq{ctx: ctx, w: c08NewWorld(), c: &c08Case{Mode: mode, Ops: []c08Op{}}, seq: map[int]int{}, stats: map[string]int{},
-		st: &c08Reply{Ok: true}, sigs: map[int]map[string]bool{}}
+		st: &c08Reply{Ok: true}, sigs: map[int]map[string]bool{}, fwd: map[int]bool{}}
 }
 
 func c08RunSeq(ctx *vh.Ctx) error {
